@@ -285,4 +285,25 @@ theorem exPrunedArr_hyps :
   simp only [hypsN, hyps, exArr3_linked, Bool.true_and]
   decide
 
+/-- the two-member Array through the stable composition: both hereditary conditions hold of it -/
+theorem exArr2_via_stable :
+    fromFlat exEnvB usep exArrS (formPairs [] exArrT2) = prS exEnvB usep false exArrS exArrE2 := by
+  have hb := exArr2_only_narrow_fails.1
+  simp only [baseHyps, Bool.and_eq_true] at hb
+  obtain ⟨⟨⟨⟨⟨⟨⟨hl, _⟩, _⟩, hw⟩, hroot⟩, hok⟩, henv⟩, hns⟩ := hb
+  have henv' := envOKB_sound exEnvB henv
+  have hfl : flatten exEnvB usep exArrS exArrE2 = [(s "a", s "x"), (s "a", s "y")] := by
+    simp [flatten, flattenNode, resolve, resolveMembers, resolveOne, resolveList, membersOf, bfsFlat, childItems,
+      kidsFrom, namePath, joinSep, FNode.fl, FNode.cfl, FNode.u, FNode.name, FNode.kids, FNode.slots, exArrS,
+      exArrE2, usep, s, Schema.name]
+  have hfp : formPairs [] exArrT2 = [(s "a", s "x"), (s "a", s "y")] := by decide
+  apply fromFlat_formPairs_stable exEnvB exArrS exArrE2 exArrT2 henv' (namesSafe_sound exEnvB exArrS henv' hns)
+    (by rw [← wfS_eq]; exact hw) hroot (okSB_sound exEnvB exArrS exArrE2 hok) (fnodeBeq_sound _ _ hl)
+  · rw [hfl]
+    simp only [exArrS, HNodupA, HNodupAFields, and_true]
+  · rw [hfl, hfp]
+    simp only [exArrS, ASame, ASameFields, and_true]
+    decide
+  · decide
+
 end Flatland.EndToEnd.Proofs
